@@ -12,6 +12,7 @@ INVARIANTS
   FEShape
   LogProjection
   L2OnlyMappings
+  ShallowOnlyCell
   Sanity
   Export
 CHECK_DEADLOCK FALSE
